@@ -200,4 +200,57 @@ example :
       (emitVarsOn unsetupEups (OldEnv.ofEnv old) old).map Cmd.text = [] := by
   decide
 
+/-! ## the protected names are an exact-match set -/
+
+/-- `^EUPS_(DIR|PATH|PKGROOT|SHELL)$`: the four names themselves, or one of them followed by a final newline (Python's
+`$`), and nothing else -/
+theorem C05_protected_iff (k : Str) :
+    isProtected k = true ↔
+      k ∈ [sEUPS_DIR, sEUPS_PATH, sEUPS_PKGROOT, sEUPS_SHELL] ∨
+      k ∈ [sEUPS_DIR ++ [10], sEUPS_PATH ++ [10], sEUPS_PKGROOT ++ [10], sEUPS_SHELL ++ [10]] := by
+  simp only [isProtected, List.any_cons, List.any_nil, Bool.or_false, Bool.or_eq_true, beq_iff_eq, List.mem_cons,
+    List.not_mem_nil, or_false]
+  constructor
+  · rintro ((h | h) | (h | h) | (h | h) | (h | h)) <;> simp [h]
+  · rintro ((h | h | h | h) | (h | h | h | h)) <;> simp [h]
+
+/-- **For identifiers the protected set is exactly the four names**: a name that merely starts with, ends with or
+contains one of them is not protected. -/
+theorem C05_protected_exact (k : Str) (hk : isIdent k = true) :
+    isProtected k = true ↔ k = sEUPS_DIR ∨ k = sEUPS_PATH ∨ k = sEUPS_PKGROOT ∨ k = sEUPS_SHELL := by
+  rw [C05_protected_iff]
+  constructor
+  · rintro (h | h)
+    · simpa using h
+    · exfalso
+      have hs := ident_safe hk
+      simp only [List.mem_cons, List.not_mem_nil, or_false] at h
+      have h10 : (10 : Nat) ∈ k := by rcases h with h | h | h | h <;> (rw [h]; simp)
+      have := hs 10 h10
+      revert this; decide
+  · intro h; left; simpa using h
+
+/-- a variable of the caller's environment that is not one of the four names and has disappeared is unset -/
+theorem C05_unprotected_is_unset (new : Env) (k : Str) (v : Option Str) (hp : isProtected k = false)
+    (hgone : new.has k = false) : unsetCmd? {} new (k, v) = some (Cmd.unsetVar k) := by
+  simp [unsetCmd?, hp, hgone, hidden]
+
+/-- near misses of the protected names (the variables of products `eups_shelltools`, `eups_path`, saved copies, ...)
+are not protected; the four names are -/
+example :
+    (["EUPS_PATH_SAVED", "EUPS_PKGROOT_MIRROR", "EUPS_DIR_EXTRA", "EUPS_SHELLTOOLS_DIR", "SETUP_EUPS_SHELLTOOLS",
+      "MY_EUPS_PATH", "EUPS_DIRS", "EUPS_PAT", "EUPS_", "eups_path", "EUPS_PATH_DIR", "XEUPS_SHELL"].map
+        fun n => isProtected (Str.ofString n)) = List.replicate 12 false ∧
+      (["EUPS_DIR", "EUPS_PATH", "EUPS_PKGROOT", "EUPS_SHELL"].map fun n => isProtected (Str.ofString n)) =
+        List.replicate 4 true := by
+  decide
+
+/-- on the witness of the corpus: every near miss that disappeared is unset, the protected `EUPS_PKGROOT` is not -/
+example :
+    let old : Env := [(Str.ofString "EUPS_PATH", [47]), (Str.ofString "EUPS_PATH_SAVED", [47]),
+                      (Str.ofString "EUPS_SHELLTOOLS_DIR", [47]), (Str.ofString "EUPS_PKGROOT", [47])]
+    emit {} (OldEnv.ofEnv old) [(Str.ofString "EUPS_PATH", [47])] [] [] =
+      some [Str.ofString "unset EUPS_PATH_SAVED", Str.ofString "unset EUPS_SHELLTOOLS_DIR"] := by
+  decide
+
 end EupsModel.C05
